@@ -19,11 +19,17 @@ import (
 
 func c08AnchoredDoc(r *rand.Rand) string {
 	var sb strings.Builder
+	useCPU := false
 	sc := func() string { return []string{"1", "3", "x", "'q'", "true", "null", "2.5"}[r.IntN(7)] }
 	sb.WriteString("defaults: &defaults\n")
 	fmt.Fprintf(&sb, "  retries: %s\n", sc())
 	if r.IntN(2) == 0 {
 		fmt.Fprintf(&sb, "  nested: &nest\n    deep: %s\n    list: [1, 2]\n", sc())
+	}
+	if r.IntN(2) == 0 {
+		// an entry without an anchor of its own that holds an anchored node and an alias of it further down
+		fmt.Fprintf(&sb, "  limits:\n    cpu: &cpu %s\n    burst: *cpu\n    more:\n      again: *cpu\n", sc())
+		useCPU = true
 	}
 	if r.IntN(2) == 0 {
 		fmt.Fprintf(&sb, "other: &other\n  timeout: %s\n  retries: %s\n", sc(), sc())
@@ -52,6 +58,9 @@ func c08AnchoredDoc(r *rand.Rand) string {
 	fmt.Fprintf(&sb, "refsmap:\n  web: *defaults\n  db: *sp\n  plain: %s\n", sc())
 	fmt.Fprintf(&sb, "ents:\n  - key: a\n    value: %s\n  - key: b\n", sc())
 	fmt.Fprintf(&sb, "scalar: &s %s\nuse: *s\n", sc())
+	if useCPU {
+		sb.WriteString("elsewhere: *cpu\n")
+	}
 	return sb.String()
 }
 
@@ -67,7 +76,8 @@ var c08AnchorPool = []string{
 	`.items | unique_by(.spec.a)`, `.items | map(.spec == .spec)`, `.items[0] == .items[1]`, `.refs[0] == .spec`, `.items | any_c(.spec.a == 1)`,
 	`.items | contains([{"v": 1}])`, `.refs | contains([1])`, `.service | has("retries")`, `.items | min`, `.items | max`, `.refs | reverse`, `.items | flatten`,
 	// serialisation inside the expression
-	`to_json`, `@json`, `.items | to_json`, `.service | @json`, `to_yaml`, `.service | to_yaml`, `to_props`, `.service | to_props`, `.items | @json`, `to_xml`,
+	`to_json`, `@json`, `.items | to_json`, `.service | @json`, `.service | to_json`, `.service | to_props`, `.service | to_xml`, `.refsmap | to_json`, `.refsmap.web | @json`,
+	`[.service, .refsmap] | sort_by(to_json)`, `select(.service | to_props | test("cpu"))`, `to_yaml`, `.service | to_yaml`, `to_props`, `.service | to_props`, `.items | @json`, `to_xml`,
 	`.refs | @json`, `.items[] | to_json`, `.use | to_json`, `tojson`, `.service | to_entries`, `.service | with_entries(.)`, `.service | keys`, `.service | length`,
 	// entries: values that are aliases, entries without a value
 	`.refsmap | with_entries({"key": .key, "value": .value.zz_missing})`, `.refsmap | with_entries(select(.value.zz_missing == null))`, `.refsmap | with_entries(.value |= .zz_missing)`,
